@@ -103,12 +103,12 @@ def vkind_values(rng, vkind, n):
         return [rng.random() < 0.5 for _ in range(n)]
     if vkind == "float":
         return [rng.randint(-40, 80) / 4.0 for _ in range(n)]
-    if vkind == "uint":
+    if vkind in ("uint", "safeint"):
         return [rng.randint(0, 100) for _ in range(n)]
     return [rng.randint(-100, 100) for _ in range(n)]
 
 
-VDT = {"int": ["int64", "int32", "int16"], "uint": ["uint16", "uint32", "uint64"], "float": ["float64", "float32"],
+VDT = {"safeint": ["int64", "int32", "uint16"], "int": ["int64", "int32", "int16"], "uint": ["uint16", "uint32", "uint64"], "float": ["float64", "float32"],
        "bool": ["bool"]}
 
 
@@ -303,7 +303,9 @@ class Hist:
             self.m[d] = {kk: (0 if f == "zeros_like" else 1) for kk in self.m[h]}
             self.info[d] = dict(self.info[h])
             self.info[d]["scalar_state"] = True
-            if self.info[h].get("no_value_dtype"):
+            if self.info[h].get("no_value_dtype") == "uncertain":
+                self.info[d]["vkind"] = "safeint"
+            elif self.info[h].get("no_value_dtype"):
                 self.info[d]["vkind"] = "uint" if self.info[h]["dt"].startswith("uint") else "int"
             self.sig.append("derive:" + f)
             return
@@ -319,13 +321,23 @@ class Hist:
             self.m[d] = {kk: self.m[a][kk] + self.m[b][kk] for kk in self.m[a]}
             self.info[d] = dict(self.info[a])
             self.info[d]["cls"] = "HashTable"
+            # scalar_state is True (certainly still a scalar), False (certainly per-key values) or None (unknown: a
+            # refused vector assignment may or may not have expanded the values - the property does not say)
             sa, sb = self.info[a].get("scalar_state"), self.info[b].get("scalar_state")
-            if sa and sb:
+            ua, ub = self.info[a].get("no_value_dtype"), self.info[b].get("no_value_dtype")
+            if sa is True and sb is True:
                 # scalar + scalar stays a Python scalar and the sum table has no value dtype of its own:
                 # its values materialise in the key dtype, so only integers are assigned to it
                 self.info[d]["vkind"] = "uint" if self.info[a]["dt"].startswith("uint") else "int"
                 self.info[d]["scalar_state"] = True
                 self.info[d]["no_value_dtype"] = True
+            elif sa is None or sb is None or ua == "uncertain" or ub == "uncertain" \
+                    or "safeint" in (self.info[a]["vkind"], self.info[b]["vkind"]):
+                # whether the sum has a value dtype of its own depends on the unknown state: from here on only
+                # values representable in every candidate dtype (small non-negative integers) are assigned
+                self.info[d]["vkind"] = "safeint"
+                self.info[d]["scalar_state"] = False if (sa is False or sb is False) else None
+                self.info[d]["no_value_dtype"] = "uncertain"
             else:
                 ka = self.info[a]["vkind"] if not sa else "int"
                 kb = self.info[b]["vkind"] if not sb else "int"
@@ -351,7 +363,8 @@ class Hist:
         cls = self.info[h]["cls"]
         if k == "count":
             # counters inside ordinary table histories (a Counter is a HashTable): batches of keys and non-keys
-            cs = [x for x in self.m if self.info[x]["cls"] == "Counter" and self.info[x]["vkind"] in ("int", "uint")]
+            cs = [x for x in self.m if self.info[x]["cls"] == "Counter"
+                  and self.info[x]["vkind"] in ("int", "uint", "safeint")]
             if not cs:
                 return
             h = rng.choice(cs)
@@ -425,7 +438,10 @@ class Hist:
             op = {"op": "setv", "h": h, "keys": sel, "value": val}
             self.qform(h, op)
             self.ops.append(op)
-            self.info[h]["scalar_state"] = False   # _fill_values() runs before the refusal, too
+            if absent and self.info[h].get("scalar_state") is not False:
+                self.info[h]["scalar_state"] = None    # a refused assignment may or may not have expanded the values
+            else:
+                self.info[h]["scalar_state"] = False
             if not absent:
                 for j, kk in enumerate(sel):
                     self.m[h][kk] = val[1] if val[0] == "scalar" else val[2][j]
